@@ -284,6 +284,8 @@ class Scalar(Node):
         simple = {'int': int, 'float': float, 'complex': complex, 'str': str, 'bytes': bytes, 'bytearray': bytearray,
                   'bool': bool, 'none': type(None), 'any': t.Any, 'Decimal': decimal.Decimal, 'Fraction': fractions.Fraction,
                   'date': datetime.date, 'time': datetime.time, 'datetime': datetime.datetime}
+        if n == 'none' and len(self.spec) > 2:
+            return None     # the bare spelling
         if n in simple:
             return simple[n]
         if n in PATH_TYPES:
@@ -1073,7 +1075,8 @@ class TypeVarN(Node):
         if self.mode == 'free':
             return t.TypeVar('T')
         if self.mode == 'bound':
-            return t.TypeVar('T', bound=self.inner.pytype())
+            b = self.inner.pytype()
+            return t.TypeVar('T', bound=type(None) if b is None else b)    # (bound=None means 'no bound')
         ms = [m.pytype() for m in self.inner.members]  # type: ignore
         return t.TypeVar('T', *ms)  # type: ignore
 
@@ -1178,7 +1181,12 @@ HASHABLE_SCALARS = ['int', 'str', 'bytes', 'bool', 'none', 'float', 'Fraction', 
 
 def scalar_specs(names: t.Sequence[str] = SCALAR_NAMES) -> st.SearchStrategy[t.Any]:
     common = ['int', 'float', 'str', 'bool', 'none', 'bytes']
-    return st.one_of(st.sampled_from(common), st.sampled_from(list(names))).map(lambda n: ('s', n))
+    plain = st.one_of(st.sampled_from(common), st.sampled_from(list(names))).map(lambda n: ('s', n))
+    if 'none' not in names:
+        return plain
+    # `None` written as such (the typing convention for NoneType; docs/index.md lists `None` as a supported type).  Inside a
+    # typing generic it becomes NoneType anyway; at the top level and inside struct / tuple type literals pane sees the bare None.
+    return st.one_of(plain, plain, plain, plain, plain, plain, plain, st.just(('s', 'none', 'bare')))
 
 
 lit_values = st.one_of(st.sampled_from(['a', 'b', 'x', '', 'tag']), st.integers(-2, 3), st.booleans(), st.none(), st.sampled_from([b'a', b'']))
